@@ -10,6 +10,7 @@ from ..r_alias import rule_retry_flush as _rule_retry_flush
 from ..r_codebooks import rule_cx_radical_lists as _rule_cxr
 from ..r_readers import rule_leniency_scope as _rule_leniency
 from ..r_codebooks import rule_list_regex_items as _rule_listre
+from ..r_round8 import rule_sibling_options as _r8_opts, rule_cx_index_language as _r8_cx
 
 LEVEL = 'other'
 EXEMPT = {('_convert', 'create_molecule', 'AtomNotFound'): 'infeasible for the daylight readers: every bond end was just inserted by the same parser '
@@ -38,3 +39,5 @@ def run(ck, repo):
     _rule_leniency(ck, repo, 'C03.D3-leniency-scope')
     _rule_listre(ck, repo, 'C03.D2-list-patterns', [('chython.files.daylight.smiles', 'cx_fragments'), ('chython.files.daylight.smiles', 'cx_radicals'),
                                                    ('chython.files.daylight.smarts', 'cx_radicals')])
+    _r8_opts(ck, repo, 'C03.D6-sibling-options')
+    _r8_cx(ck, repo, 'C03.D6-cx-index-language', ['chython.files.daylight.smiles', 'chython.files.daylight.smarts'])
